@@ -148,7 +148,8 @@ Search::Search(const Position& position, const Limits& limits,
     }
     else if (limits.depth != 0)
     {
-        _search_depth = limits.depth;
+        // iterations beyond MAX_DEPTH are not supported (per-depth arrays)
+        _search_depth = std::min(limits.depth, MAX_DEPTH);
         _search_time = INFINITE_DURATION;
     }
     else if (limits.movetime != 0)
